@@ -347,15 +347,17 @@ impl<'a> Interpreter<'a> {
                     let index = stack.pop_noresolve()?;
                     if let CelValue::Ident(ident) = index.as_value()? {
                         let obj = stack.pop()?.into_value()?;
+                        // a name only denotes a method when it is about to be called
+                        let is_call = pc < prog.len() && matches!(prog[pc], ByteCode::Call(_));
                         match obj {
                             CelValue::Map(ref map) => match map.get(ident.as_str()) {
                                 Some(val) => stack.push_val(val.clone()),
                                 None => match self.callable_by_name(ident.as_str()) {
-                                    Ok(callable) => stack.push(CelStackValue::BoundCall {
+                                    Ok(callable) if is_call => stack.push(CelStackValue::BoundCall {
                                         callable,
                                         value: obj,
                                     }),
-                                    Err(_) => {
+                                    _ => {
                                         stack.push(
                                             CelValue::from_err(CelError::attribute(
                                                 "obj",
@@ -383,8 +385,9 @@ impl<'a> Interpreter<'a> {
                             }
                             _ => {
                                 if let Some(bindings) = self.bindings {
-                                    if bindings.get_func(ident.as_str()).is_some()
-                                        || bindings.get_macro(ident.as_str()).is_some()
+                                    if is_call
+                                        && (bindings.get_func(ident.as_str()).is_some()
+                                            || bindings.get_macro(ident.as_str()).is_some())
                                     {
                                         stack.push(CelStackValue::BoundCall {
                                             callable: self.callable_by_name(ident.as_str())?,
